@@ -54,6 +54,7 @@ func main() {
 			os.Exit(2)
 		}
 		res := scen.Run(rf.Params)
+		raceCheck(res)
 		enc.Encode(res)
 		return
 	}
@@ -67,8 +68,49 @@ func main() {
 		if *verbose {
 			p.Extra = map[string]int{"dump": 1}
 		}
+		if simrt.RaceBuild {
+			p.Extra = map[string]int{"race": 1}
+		}
 		res := scen.Run(p)
+		raceCheck(res)
 		enc.Encode(res)
 		out.Flush()
 	}
+}
+
+var raceOff int64
+
+// raceCheck attributes new ThreadSanitizer reports (frames in package sod on
+// both sides) to the run that just finished.
+func raceCheck(res *scen.Result) {
+	if !simrt.RaceBuild {
+		return
+	}
+	path := ""
+	for _, f := range strings.Fields(os.Getenv("GORACE")) {
+		if strings.HasPrefix(f, "log_path=") {
+			path = strings.TrimPrefix(f, "log_path=") + "." + fmt.Sprint(os.Getpid())
+		}
+	}
+	if path == "" {
+		return
+	}
+	reps := scen.RaceReports(path, &raceOff)
+	if res.Stats == nil {
+		res.Stats = map[string]int{}
+	}
+	res.Stats["race-detector-on"]++
+	if len(reps) == 0 || res.V != nil {
+		return
+	}
+	first := reps[0]
+	sig := first
+	if i := strings.Index(first, "\n"); i >= 0 {
+		sig = first[:i]
+	}
+	if len(first) > 6000 {
+		first = first[:6000]
+	}
+	res.V = &scen.Violation{Tag: "race", Sig: "race:" + sig, Msg: "data race on the simulated schedule (happens-before of the program's own locks only):\n" + first}
+	res.Owned = scen.OwnsTag(res.Params.Prop, "race")
 }
